@@ -45,6 +45,12 @@ def colliding_names(rng, n, strings):
 
 
 def gen_case(rng, ctx):
+    if rng.random() < 0.012:
+        # large datasets (63-1025 elements, up to 20 rankings): shortcuts that compare sizes, hashes or digests first
+        n = rng.choice(gen.THRESHOLD_SIZES)
+        A, _base = gen.large_dataset(rng, n, rng.choice([2, 3, 5, 20]))
+        kind = rng.choice(["permute", "reinsert", "duplicate", "drop", "move", "swap", "multiplicity", "empty-bucket", "rename"])
+        return {"A": A, "kind": kind, "seed": rng.randrange(10 ** 6), "strings": False, "large": n}
     strings = rng.random() < 0.5
     n = rng.randint(1, 8)
     special = rng.random()
@@ -143,6 +149,10 @@ def check_case(case, ctx):
         return
     ctx.count("pairs")
     ctx.count(f"kind:{case['kind']}:{expected}")
+    if case.get("large"):
+        ctx.count("large_pairs")
+        ctx.count(f"large_pairs:{expected}")
+        sub = {"A": A, "B": B, "kind": case["kind"], "large": case["large"]}
     text_differs = str(da) != str(db)
     results = {}
     for label, fn in (("a==b", lambda: da == db), ("b==a", lambda: db == da), ("a==a", lambda: da == da),
@@ -168,7 +178,8 @@ def check_case(case, ctx):
             mech = "different-datasets-reported-equal"
             if case["kind"] in ("comma", "space"):
                 mech += ":names-with-delimiters"
-        ctx.violation("C17/" + mech, f"{A} == {B} returned {results['a==b']}, expected {expected} ({case['kind']})", sub,
+        ctx.violation("C17/" + mech, (f"{A} == {B}" if not case.get("large") else f"two datasets of {case['large']} elements "
+                      f"({case['kind']})") + f" returned {results['a==b']}, expected {expected} ({case['kind']})", sub,
                       observed=results["a==b"], expected=expected)
     # a Dataset never equals something that is not a Dataset (and the comparison does not fail)
     for other in (None, 0, "text", [list(map(set, r)) for r in A], da.rankings, str(da)):
@@ -283,6 +294,8 @@ def reach(counters, tier, info):
     k = 0.5 if tier == "quick" else 20
     out = []
     for name, key, need in [("pairs judged", "pairs", 4000 * k),
+                            ("pairs of datasets of 63-1025 elements, expected equal", "large_pairs:True", 20 * k),
+                            ("pairs of datasets of 63-1025 elements, expected different", "large_pairs:False", 20 * k),
                             ("comparisons of a Dataset with something else", "comparisons_with_non_datasets", 4000 * k),
                             ("pairs of elements compared and hashed", "element_pairs", 4000 * k),
                             ("equal-by-construction pairs whose textual forms differ", "equal_text_differs", 300 * k),
